@@ -40,7 +40,7 @@ class ObservedDevice:
     """C.Device() + a promiscuous sniffer + wrappers at the service boundary; builds the Coq event list and the
     expected canonical trace side by side"""
 
-    def __init__(self, dcc=None):
+    def __init__(self, dcc=None, silent=False):
         from bacpypes.appservice import ServerSSM
         self.ServerSSM = ServerSSM
         self.w = C.Device()
@@ -54,6 +54,8 @@ class ObservedDevice:
         if dcc:
             self.app.smap.dccEnableDisable = dcc
             self.dcc = {'enable': 0, 'disable': 1, 'disableInitiation': 2}[dcc]
+        if silent:      # a service that returns without responding: the transaction waits for the application time-out
+            self.app.do_ReadPropertyRequest = lambda apdu: None
         self._hook()
 
     # ---- service boundary
@@ -443,6 +445,32 @@ def scenario_cases(rng, tier, pool, other_confirmed, unconf, stats):
             a = bytearray(apdu); a[2] = inv
             od.rx(od.w.raw, C.npdu(bytes(a))); script.append(C.npdu(bytes(a)))
         keep('dev:segmented-request', od, {'family': 'segmented request', 'frames': [f.hex() for f in script]})
+
+    # a service that stays silent: the transaction lingers in AWAIT_RESPONSE until the application time-out; duplicates of
+    # the request are ignored meanwhile, a client Abort ends it, other requests are served
+    for _ in range(200 if big else 40):
+        od = ObservedDevice(silent=True)
+        rp = bytearray(pool[0][1]); rp[2] = 50
+        script = [C.npdu(bytes(rp))]
+        od.rx(od.w.raw, script[0])
+        for _ in range(rng.randrange(1, 5)):
+            r = rng.random()
+            if r < 0.3:
+                f = script[0]                                   # duplicate
+            elif r < 0.45:
+                f = C.npdu(bytes([0x70 | rng.choice([0, 0, 1]), 50, rng.randrange(10)]), False)     # Abort from the client (srv 0) / stray (srv 1)
+            elif r < 0.55:
+                f = C.npdu(bytes([0x40, 50, 0, 2]), False)      # SegmentAck nobody asked for
+            elif r < 0.8:
+                a = bytearray(rng.choice(pool)[1]); a[2] = rng.choice([50, 51])
+                f = C.npdu(bytes(a))
+            else:
+                f = garbage(rng, pool, rng.randrange(7))
+            script.append(f)
+            od.rx(od.w.raw, f)
+            if rng.random() < 0.4:
+                od.adv(rng.choice([1.0, 2.5, 4.0]))
+        keep('dev:silent-service', od, {'family': 'service that does not respond', 'frames': [f.hex() for f in script]})
 
     # a device whose communication has been disabled listens to DeviceCommunicationControl, ReinitializeDevice, Who-Is only
     for _ in range(150 if big else 30):
